@@ -5,7 +5,8 @@ AttrChoicesNone == { NoAttrs }
 AttrChoicesSmall == {
     NoAttrs,
     << [a |-> "const", n |-> "title", v |-> "k1"] >>,
-    << [a |-> "expr", n |-> "data-x", e |-> "E1"] >> }
+    << [a |-> "expr", n |-> "data-x", e |-> "E1"] >>,
+    << [a |-> "cond", c |-> "C1", then |-> << [a |-> "const", n |-> "title", v |-> "k1"] >>, else |-> << >>] >> }
 AttrChoicesFull == {
     NoAttrs,
     << [a |-> "const", n |-> "title", v |-> "k1"] >>,
@@ -16,6 +17,7 @@ AttrChoicesFull == {
     << [a |-> "const", n |-> "id", v |-> "k1"], [a |-> "spread", m |-> "M2"] >>,
     << [a |-> "class2"] >>,
     << [a |-> "const", n |-> "href", v |-> "k5"] >>,
+    << [a |-> "const", n |-> "placeholder", v |-> "k6"], [a |-> "boolc", n |-> "hidden"] >>,
     << [a |-> "cond", c |-> "C2", then |-> << [a |-> "boolc", n |-> "hidden"] >>, else |-> << [a |-> "class2"] >>] >>,
     << [a |-> "class", e |-> "K1"], [a |-> "const", n |-> "title", v |-> "k1"] >>,
     << [a |-> "cond", c |-> "C1", then |-> << [a |-> "class", e |-> "K1"] >>, else |-> << >>] >>,
